@@ -482,6 +482,24 @@ class Emitter:
                 for (x, _) in v[1:]:
                     s = f'({f} Nm_ {s} {x})'
                 return s, 'T'
+            if (mod in ('np', 'numpy') and base in ('amin', 'amax', 'min', 'max') and len(n.args) == 1
+                    and [kw.arg for kw in n.keywords] == ['axis']
+                    and isinstance(n.keywords[0].value, ast.Constant) and n.keywords[0].value.value == 1
+                    and isinstance(n.args[0], ast.Attribute) and n.args[0].attr == 'T'
+                    and isinstance(n.args[0].value, ast.Call)
+                    and ast.unparse(n.args[0].value.func) in ('np.vstack', 'numpy.vstack')
+                    and len(n.args[0].value.args) == 1 and not n.args[0].value.keywords
+                    and isinstance(n.args[0].value.args[0], (ast.Tuple, ast.List))
+                    and len(n.args[0].value.args[0].elts) >= 2 and m == 'Num'):
+                # np.max(np.vstack((a, b, ...)).T, axis=1): per element the maximum of the stacked arrays
+                elts = [self.e(x) for x in n.args[0].value.args[0].elts]
+                if any(t != 'T' for _, t in elts):
+                    self.fail(n, 'row-wise reduction of a vstack of non-real arrays')
+                f = 'nmin' if base in ('amin', 'min') else 'nmax'
+                s = elts[0][0]
+                for (x, _) in elts[1:]:
+                    s = f'({f} Nm_ {s} {x})'
+                return s, 'T'
             if mod in ('np', 'numpy', 'math', 'scipy.special', 'special') or fn in ('abs', 'min', 'max', 'erf'):
                 if base == 'where' and len(n.args) == 3:
                     c = self.truthy(*self.e(n.args[0]))
@@ -537,6 +555,15 @@ class Emitter:
                             d = n.args[1].value
                             p = f'(ofZ Nm_ {10**d})'
                             return f'(ndiv Nm_ (nrint Nm_ (nmul Nm_ {a} {p})) {p})', 'T'
+                        if (len(n.args) == 2 and not n.keywords and m == 'Num'
+                                and isinstance(n.args[1], (ast.Name, ast.Attribute))
+                                and self.argtypes.get(ast.unparse(n.args[1])) == 'Z'):
+                            # np.around(x, d) with a variable number of decimals d (declared :Z, read for d >= 0):
+                            # the same formula with p = 10^d
+                            a, _ = self.e(n.args[0])
+                            dn, _ = self.e(n.args[1])
+                            return (f'(let p_ := ofZ Nm_ (Z.pow 10 {dn}) in '
+                                    f'ndiv Nm_ (nrint Nm_ (nmul Nm_ {a} p_)) p_)'), 'T'
                         self.fail(n, 'np.around form')
                     a, ta = self.e(n.args[0])
                     if m == 'Z':
